@@ -11,23 +11,23 @@ BASELINE = ("cd /repo && /venv/bin/python -m pytest -ra -q -p no:cacheprovider -
 P = {
  'C01': ('E2 pipeline enumerator', '5/C01', 'model_checking',
          'exhaustive small-scope enumeration of write/read pipelines (masks x layouts x compress x writers x loaders; id styles x metadata kinds) on the real code, field-by-field oracle',
-         'Every HDF5 write/read pipeline in the stated finite product is executed on the real library and compared field by field (ids, float64 bit patterns, metadata, header) with an observation of the source table; no sampling.',
+         'Every HDF5 write/read pipeline in the stated finite product is executed on the real library and compared field by field (ids, float64 bit patterns, metadata, header, group metadata) with an observation of the source table; the table read back is written and read a second time; every state of the operation-history search (incl. tables with an empty axis) is round-tripped; no sampling.',
          'h5py, numpy, scipy.sparse.toarray trusted; ids/metadata over a finite style alphabet, matrices up to 3x3.'),
  'C02': ('E2 pipeline enumerator', '5/C02', 'model_checking',
          'exhaustive small-scope enumeration of JSON writer forms x readers over masks, hard float values, header/metadata string alphabets; stdlib json as independent decoder',
-         'Every JSON write/read pipeline of the finite product is run on the real writer and the five readers; stdlib json decodes the text independently and values are compared as exact doubles.',
+         'Every JSON write/read pipeline of the finite product (incl. tables with an empty axis) is run on the real writer (string and streamed form) and six readers; stdlib json decodes the text independently and values are compared as exact doubles; every table read back is written a second time; every state of the operation-history search is round-tripped.',
          'stdlib json/gzip trusted; finite alphabets of strings and values.'),
  'C03': ('E2 pipeline enumerator', '5/C03', 'model_checking',
          'exhaustive small-scope enumeration of TSV writers x readers (API and biom convert) over masks, hard floats, id styles',
-         'Every TSV export/import path of the finite product is executed on the real code; ids in order and bit-identical values are required.',
+         'Every TSV export/import path of the finite product (writers, readers, caller-chosen id column name, one exported category) is executed on the real code; ids in order, bit-identical values and the exported category are required; the imported table is exported again; every state of the operation-history search is round-tripped with and without a category.',
          'finite alphabets; click callbacks in process plus real subprocess runs in the thorough tier.'),
  'C04': ('E2 pipeline enumerator + raw-h5py spec decoder', '5/C04', 'model_checking',
          'exhaustive enumeration of written HDF5 files decoded by an independent BIOM 2.1 reader written against the spec with raw h5py',
-         'Every file the library writes for the enumerated tables/layouts/writers is decoded by mc/h5spec.py (no biom import) and checked clause by clause against the 2.1 specification and the source table.',
+         'Every file the library writes for the enumerated tables/layouts/writers is decoded by mc/h5spec.py (no biom import) and checked clause by clause against the 2.1 specification and the source table; the written file is loaded and the loaded table written and decoded again; in every state of the operation-history search the table is written, changed in place along each axis and written again from the same object.',
          'h5py trusted; the spec decoder is the oracle.'),
  'C05': ('E1 history explorer', '5/C05', 'model_checking',
          'explicit-state breadth-first search over operation histories on the real Table (concrete-state dedup), invariant evaluated in every reached state',
-         'All operation histories over a ~120-op alphabet up to the completed depth from five start tables are executed on the real object; the coherence invariant and agreement of every accessor are evaluated in every distinct concrete state.',
+         'All operation histories over a ~130-op alphabet up to the completed depth from five start tables (thorough: also three tables read from HDF5 / JSON / classic text) are executed on the real object; the coherence invariant and agreement of every accessor are evaluated in every distinct concrete state; after every operation that returns a new table, in-place changes to either table must leave the other coherent.',
          'numpy/scipy toarray trusted; depth bound as reported in the evidence; finite argument alphabet.'),
 }
 for k in list(P):
